@@ -1,5 +1,5 @@
 from ._muxprops import make, COMMON_RULE
 
-SPEC = make("C07", "Properties.C07", ['C07_alloc_id_nonzero_unused', 'C07_open_attempt_spec', 'C07_connect_rejected', 'C07_connect_accepted', 'C07_connect_acknowledged'],
-            [("pair", "collide", 0.6), ("pair", "collide-drop", 0.4)],
-            COMMON_RULE + "Emphasis for this property: generator mode(s) collide.", "DESIGN.md §4 C07")
+SPEC = make("C07", "Properties.C07", ['C07_alloc_id_nonzero_unused', 'C07_open_attempt_spec', 'C07_connect_rejected', 'C07_connect_accepted', 'C07_connect_acknowledged', 'C07_one_stream_per_request_refuted'],
+            [("pair", "collide", 0.6), ("pair", "collide-drop", 0.2), ("pair", "collide-reuse", 0.3)],
+            COMMON_RULE + "Emphasis for this property: generator mode(s) collide. A black-box predicate counts, on every trace, the streams handed to each accepting application against the requests the peer made; the corpus case id_reuse_stale_reset reproduces the open known finding on every run.", "DESIGN.md §5 C07")
